@@ -372,10 +372,20 @@ def expand_c13(st, seed):
             g = [rpoly(rng, nin, 1, 1) + [dict(c=1, e=[0] * nin)]]
             bnd = [dict(kind=kind, g=g, comp=[1, 1]) for _ in range(2 * dim)]
         net = dict(name=name, V=V, ic=ic, obsd=obsd, bnd=bnd)
+        if st.get("normu") and lk != "ode":           # per-unknown normalisation: own samples, own volume
+            samples, tries = [], 0
+            while len(samples) < 2 + 2 * (k % 2):
+                x = [rng.randint(-3, 4) for _ in range(dim)]
+                tries += 1
+                if x not in samples or tries > 80:
+                    samples.append(x)
+            net["norm"] = dict(on=True, samples=samples, L=1 + k)
         if st.get("obs2"):            # a second output; unknown k is observed on its own component (k odd: the first, k even: the second)
             net["V2"] = rpoly(rng, nin, 2, 2, must=(k + 1) % nin) + [dict(c=-(k + 2), e=[0] * nin)]
             comp = 1 + (k + 1) % 2
             obsd["slice"] = [comp, comp]
+            for bb_ in bnd:                      # the boundary condition of this unknown applies to the same component
+                bb_["comp"] = [comp, comp]
         r["nets"].append(net)
         if st["wform"] == "nocons":       # weights of the per-unknown terms omitted: ODE systems drop the terms, PDE systems default to 1.0
             r["wu"].append(dict(ic=0, norm=0, bnd=0, obs=0) if lk == "ode" else dict(ic=1, norm=1, bnd=1, obs=1))
